@@ -74,6 +74,8 @@ impl SimCfg {
 pub struct Stats {
     pub quanta: u64,
     pub work: u64,
+    /// One engine step started more than MAX_STARTS_PER_STEP goals without returning.
+    pub runaway_step: bool,
     pub step_kinds: [u64; 8],
     pub order_calls: u64,
     pub reorders_fired: u64,
@@ -97,10 +99,15 @@ pub struct Inner {
     pub stats: Stats,
     /// When false the budget is not enforced (used while the harness itself touches stores).
     pub armed: bool,
+    /// Goal starts (cooperative yield points passed) since the last engine step was entered.
+    starts_since_step: u64,
 }
 
 #[derive(Clone)]
 pub struct Handle(pub Rc<RefCell<Inner>>);
+
+/// See `yield_here`.
+const MAX_STARTS_PER_STEP: u64 = 200_000;
 
 struct Driver(Rc<RefCell<Inner>>);
 
@@ -200,6 +207,7 @@ impl SimDriver for Driver {
     fn enter_step(&mut self, kind: u8, depth: usize) {
         let mut inner = self.0.borrow_mut();
         inner.stats.work += 1;
+        inner.starts_since_step = 0;
         inner.stats.step_kinds[(kind & 7) as usize] += 1;
         if depth == 0 {
             inner.stats.quanta += 1;
@@ -221,6 +229,16 @@ impl SimDriver for Driver {
 
     fn yield_here(&mut self, site: u8) -> bool {
         let mut inner = self.0.borrow_mut();
+        // A step that keeps starting goals without ever entering another step or returning never
+        // reaches the budget test of `enter_step`: bound it here. No operator starts anywhere near
+        // this many goals inside one step (labeling and `for` start one per element).
+        inner.starts_since_step += 1;
+        if inner.armed && inner.starts_since_step > MAX_STARTS_PER_STEP {
+            inner.stats.runaway_step = true;
+            let payload = BudgetExceeded { quanta: inner.stats.quanta, work: u64::MAX, work_cap: true };
+            drop(inner);
+            std::panic::panic_any(payload);
+        }
         let k = inner.stats.yield_calls;
         inner.stats.yield_calls += 1;
         let y = if let Some(explicit) = &inner.cfg.explicit_yields {
@@ -276,6 +294,7 @@ impl Handle {
             site_cache: HashMap::new(),
             stats: Stats::default(),
             armed: true,
+            starts_since_step: 0,
         }));
         verif_sim::install(Box::new(Driver(inner.clone())));
         Handle(inner)
